@@ -16,8 +16,8 @@ NAMES = "prqlc/prqlc/src/semantic/resolver/names.rs"
 MODULE = "prqlc/prqlc/src/semantic/module.rs"
 FUNCTIONS_RS = "prqlc/prqlc/src/semantic/resolver/functions.rs"
 
-LABELS = ["RG1", "RG2", "RG3", "LK1", "LK2", "AA1", "AA2", "FA1", "FA2", "FA3"]
-FUNCTIONS = ["resolve_ident_core", "lookup", "apply_args_to_closure", "arity_gate"]
+LABELS = ["RG1", "RG2", "RG3", "LK1", "LK2", "AA1", "AA2", "FA1", "FA2", "FA3", "RF1", "RF2", "RF3"]
+FUNCTIONS = ["resolve_ident_core", "lookup", "apply_args_to_closure", "arity_gate", "fallback_decide"]
 RLIMIT = 80
 
 ASSUMED = [
@@ -28,8 +28,9 @@ ASSUMED = [
               "fn ident_concat", "spec fn concat_id", "fn string_eq"]},
     {"what": "Module is the shim {redirects}; lookup_in (the nested recursive lookup over names / layered modules) is external: uninterpreted direct()",
      "keys": ["spec fn direct", "fn lookup_in", "spec fn cand", "fn module_lookup"]},
-    {"what": "resolve_ident_wildcard, resolve_ident_fallback (NS_INFER inference) and ambiguous_error are external; error text is opaque",
-     "keys": ["fn resolve_ident_wildcard", "fn resolve_ident_fallback", "fn ambiguous_error", "fn opaque_error", "fn unknown_name_error", "fn error_new_simple"]},
+    {"what": "resolve_ident_wildcard, resolve_ident_fallback (as called by resolve_ident_core), infer_decl (creates the declaration from the inference template) and "
+             "ambiguous_error are external; error text is opaque; `r.map_err(|x| Some(Error::new_simple(x)))` is map_err_some()",
+     "keys": ["fn resolve_ident_wildcard", "fn resolve_ident_fallback", "fn infer_decl", "spec fn inferred", "fn map_err_some", "fn ambiguous_error", "fn opaque_error", "fn unknown_name_error", "fn error_new_simple"]},
     {"what": "apply_args_to_closure: the `for param in closure.named_params.drain(..)` loop is replaced by consume_named_params() with its contract (removes from "
              "named_args exactly the entries whose key is the last segment of a named parameter); HashMap<String, Expr> is the shim ArgMap; Vec::extend appends",
      "keys": ["struct ArgMap", "fn keys", "fn consume_named_params", "spec fn named_param_keys", "fn first_entry", "fn vec_extend", "fn fmt_unknown_named", "struct PlExpr"]},
@@ -98,6 +99,15 @@ impl Resolver {
     pub fn resolve_ident_fallback(&mut self, ident: &Ident, name_replacement: &'static str) -> (r: Result<Ident, Option<Error>>) { unimplemented!() }
 }
 pub const NS_INFER: &'static str = "_infer";
+pub uninterp spec fn inferred(template: Ident, original: Ident) -> Result<Ident, String>;
+impl Resolver {
+    #[verifier::external_body]
+    pub fn infer_decl(&mut self, infer_ident: Ident, original: &Ident) -> (r: Result<Ident, String>) ensures r == inferred(infer_ident, *original), { unimplemented!() }
+}
+#[verifier::external_body]
+pub fn map_err_some(r: Result<Ident, String>) -> (o: Result<Ident, Option<Error>>)
+    ensures r is Ok ==> o == Ok::<Ident, Option<Error>>(r->Ok_0), r is Err ==> (o is Err && o->Err_0 is Some),
+{ unimplemented!() }
 """
 
 FUNC_SHIM = r"""
@@ -253,4 +263,19 @@ def build(X):
     ag.rewrites.append({"rule": "slice", "what": "statements of fold_function from `if closure.args.len() > closure.params.len()` up to the comment `make sure named args..` wrapped as "
                         "fn arity_gate; `return Ok(*expr_of_func(..))` becomes `return Ok(Err(..))` (not evaluated), falling through becomes Ok(Ok(closure)) (evaluated)"})
 
-    return PRELUDE + RESOLVER_SHIM + ric_impl + lk_impl + FUNC_SHIM + aa_impl + ag.text + "\n} // verus!\nfn main() {}\n"
+    # ---- the decision of resolve_ident_fallback (names that are only inferable)
+    fb = X.slice(NAMES, "resolve_ident_fallback", "match decls.len() {", "\n        }", name="fallback_decide")
+    fb.rewrite_re("R5", r"decls\.into_iter\(\)\.next\(\)\.unwrap\(\)", "take_one(decls)", count=None, why="the single element of a set of size one")
+    fb.rewrite_re("R5", r"self\.infer_decl\(infer_ident, ident\)\s*\.map_err\(\|x\| Some\(Error::new_simple\(x\)\)\)", "map_err_some(self.infer_decl(infer_ident, ident))", count=None,
+                  why="Result::map_err with a closure that wraps the text into an error")
+    fb.text = ("impl Resolver {\npub fn fallback_decide(&mut self, decls: IdentSet, ident: &Ident) -> (r: Result<Ident, Option<Error>>)\n"
+               "    requires decls.view().finite(),\n"
+               "    ensures\n"
+               "        // C10: nothing to infer from: `unknown` (Err(None)); two or more templates: an error, never an arbitrary pick\n"
+               "        decls.view().len() == 0 ==> (r is Err && r->Err_0 is None), // @RF1\n"
+               "        decls.view().len() >= 2 ==> (r is Err && r->Err_0 is Some), // @RF2\n"
+               "        // exactly one template: the declaration is created from THAT template\n"
+               "        decls.view().len() == 1 ==> exists|t: Ident| decls.view().contains(t) && (match inferred(t, *ident) { Ok(i) => r == Ok::<Ident, Option<Error>>(i), Err(_) => r is Err && r->Err_0 is Some }), // @RF3\n"
+               "{\n    " + fb.text + "\n}\n}\n")
+    fb.rewrites.append({"rule": "slice", "what": "`match decls.len() { .. }` (tail expression of resolve_ident_fallback) wrapped as fn fallback_decide(&mut self, decls, ident)"})
+    return PRELUDE + RESOLVER_SHIM + ric_impl + lk_impl + FUNC_SHIM + aa_impl + ag.text + fb.text + "\n} // verus!\nfn main() {}\n"
